@@ -12,9 +12,11 @@
 // process-wide atomic counter, never wall clock):
 //
 //	{"op":"Reset","tr":id,"nl":lines of this trace,"kinds":[{op,params}...]}
-//	{"op":"Add","d":id,"desc":{tag,op,params,n},"t0":..,"t1":..}
+//	{"op":"AddB","d":id,"desc":{...},"t":t0}             Set.Add is about to be called
+//	{"op":"Add","d":id,"desc":{tag,op,params,n},"t0":..,"t1":..}   Set.Add has returned
 //	{"op":"Start","c":call,"k":kind,"t":..}              (small traces only)
 //	{"op":"End","c":call,"k":kind,"s":start,"t":end,"out":description id or 0}
+//	{"op":"CurB","t":t0}                                 Current() is about to be called
 //	{"op":"Current","cur":[{"d":id,"k":count}...],"t0":..,"t1":..,"q":quiescent}
 package main
 
@@ -106,6 +108,16 @@ type evAdd struct {
 	Desc Desc   `json:"desc"`
 	T0   int64  `json:"t0"`
 	T1   int64  `json:"t1"`
+}
+type evAddB struct {
+	Op   string `json:"op"`
+	D    int    `json:"d"`
+	Desc Desc   `json:"desc"`
+	T    int64  `json:"t"`
+}
+type evCurB struct {
+	Op string `json:"op"`
+	T  int64  `json:"t"`
 }
 type evStart struct {
 	Op string `json:"op"`
